@@ -23,7 +23,7 @@ import numpy as np
 import core
 
 LEAN_MODULE = "Optyx.Props.C13"
-EXTRA_MODULES = ["Optyx.Props.PinsC13", "Optyx.Props.StateTie", "Optyx.Props.VarsTie"]   # transcription anchors (harness/source_pins.py)
+EXTRA_MODULES = ["Optyx.Props.PinsC13", "Optyx.Props.StateTie", "Optyx.Props.VarsTie", "Optyx.Props.VarsStepTie"]   # transcription anchors (harness/source_pins.py)
 THEOREMS = [
     "Optyx.Props.C13.inv_init",
     "Optyx.Props.C13.inv_step",
@@ -46,6 +46,9 @@ THEOREMS = [
     "Optyx.Props.VarsTie.svsFrame_text",
     "Optyx.Props.VarsTie.shortcutSource_eq",
     "Optyx.Props.VarsTie.generalPath_text",
+    "Optyx.Props.VarsStepTie.exprVars_step",
+    "Optyx.Props.VarsStepTie.step_unique",
+    "Optyx.Props.VarsStepTie.matrixVariableGetVariables_text",
     "Optyx.Props.PinsC13.anchors",
 ]
 ASSUMPTIONS = [
